@@ -23,8 +23,10 @@ rm -f $WT/$pkg/$(basename $demo)
 (cd $WT && go test -vet=off -count=1 ./... > $out/suite_with.log 2>&1); r3=$?
 echo "apply=$ra build=$rb demo_without=$r1 (want 0) demo_with=$r2 (want !=0) suite_with=$r3 (want 0)" | tee $out/confirm.txt
 git -C /repo worktree remove --force $WT
+python3 /verif/seeded/mkmeta.py $name "$@"
 # our checks
 for id in "$@"; do
-  /verif/mutant_test.sh seed$name $out/patch.diff $id > $out/check_$id.log 2>&1
+  SAVE_REPLAYS=$out/replays /verif/mutant_test.sh seed$name $out/patch.diff $id > $out/check_$id.log 2>&1
   grep -h "VIOLATION\|KNOWN-FINDING\| ok$\|VIOLATIONS=" $out/check_$id.log | head -5 | sed "s/^/[$id] /" | tee -a $out/confirm.txt
 done
+python3 /verif/seeded/mkmeta.py $name "$@"
